@@ -616,6 +616,15 @@ func runFrame(fr *frame) {
 		if fr.i.mode&EnableTracing != 0 {
 			fmt.Fprintf(os.Stderr, "Panicking: %T %v.\n", fr.panic, fr.panic)
 		}
+		switch fr.panic.(type) {
+		case pathAbort, engineBug, coroKill:
+			// the engine abandons this path (budget, depth, assumption, recorded violation, teardown): the
+			// deferred functions of the program under test must not run - they would act on a state the
+			// program never reaches (a deferred Unlock of a mutex that is not held at the abort point was
+			// reported as a violation before this was added), and the heap is rolled back by the trail anyway
+			fr.defers = nil
+			panic(fr.panic)
+		}
 		fr.runDefers()
 		fr.block = fr.fn.Recover
 	}()
